@@ -258,6 +258,7 @@ async fn s_malformed(h: &mut Host) -> Result<(), Fail> {
         expect_code(h.subscriber.get_subscription(GetSubscriptionRequest { subscription: bad.into() }).await, Code::InvalidArgument, "C17", &format!("GetSubscription({:?})", bad))?;
     }
     expect_code(h.sub("projects/p/subscriptions/pushy", t, 0, Some("ftp://nope")).await, Code::InvalidArgument, "C17", "CreateSubscription with an unsupported push endpoint")?;
+    expect_code(h.subscriber.get_subscription(GetSubscriptionRequest { subscription: "projects/p/subscriptions/pushy".into() }).await, Code::NotFound, "C17+C10", "GetSubscription after a rejected CreateSubscription (the rejected request changed state)")?;
     for (size, token) in [(-1, ""), (i32::MIN, ""), (1, "!!!"), (1, "AAAA"), (1, "AAAAAAAAAAAAAAAAAAAA")] {
         expect_code(h.publisher.list_topics(ListTopicsRequest { project: "projects/p".into(), page_size: size, page_token: token.into() }).await, Code::InvalidArgument, "C17+C13", &format!("ListTopics(page_size={}, page_token={:?})", size, token))?;
         expect_code(h.subscriber.list_subscriptions(ListSubscriptionsRequest { project: "projects/p".into(), page_size: size, page_token: token.into() }).await, Code::InvalidArgument, "C17+C13", &format!("ListSubscriptions(page_size={}, page_token={:?})", size, token))?;
@@ -328,6 +329,10 @@ async fn s_lists_and_content(h: &mut Host) -> Result<(), Fail> {
     let payloads: Vec<(Vec<u8>, HashMap<String, String>)> = vec![(vec![], HashMap::new()), (vec![0, 255, 1, 254, 0], attrs.clone()), (vec![b'x'; 70_000], HashMap::new())];
     let ids = h.publish(&hub, payloads.clone()).await.map_err(setup("publish"))?;
     if ids.len() != 3 { return Err(f("C08", format!("Publish returned {} ids for 3 messages", ids.len()))); }
+    {
+        let nums: Vec<u128> = ids.iter().map(|i| i.parse::<u128>().unwrap_or(0)).collect();
+        if nums.windows(2).any(|w| w[0] >= w[1]) { return Err(f("C08", format!("Publish returned the ids {:?}: not strictly increasing in request order", ids))); }
+    }
     let mut first_times = Vec::new();
     for round in 0..2 {
         for sname in [&subs[0], &subs[1]] {
@@ -475,6 +480,55 @@ async fn s_long_walk(h: &mut Host) -> Result<(), Fail> {
     Ok(())
 }
 
+
+/// C01 / C03 / C08 / C11 across consumers of one subscription: an open StreamingPull receives what is published, in
+/// publish order and under the ids Publish returned; what it holds is not handed to a unary Pull; a deleted
+/// subscription leaves its topic's list and a second subscription keeps its own copies
+async fn s_cross_consumers(h: &mut Host) -> Result<(), Fail> {
+    let (t, s, s2) = ("projects/p/topics/cc", "projects/p/subscriptions/cc", "projects/p/subscriptions/cc2");
+    h.topic(t).await.map_err(c10("CreateTopic of an absent, well-formed name"))?;
+    h.sub(s, t, 0, None).await.map_err(c10("CreateSubscription of an absent name on an existing topic of the same project"))?;
+    h.sub(s2, t, 0, None).await.map_err(c10("CreateSubscription of an absent name on an existing topic of the same project"))?;
+    let (_tx, mut rx) = tokio::sync::mpsc::channel::<StreamingPullRequest>(16);
+    let first = StreamingPullRequest { subscription: s.to_string(), ack_ids: vec![], modify_deadline_seconds: vec![], modify_deadline_ack_ids: vec![], stream_ack_deadline_seconds: 0, client_id: "c".into(), max_outstanding_messages: 10, max_outstanding_bytes: 100_000_000 };
+    let mut inbound = h.subscriber.streaming_pull(async_stream::stream! { yield first; while let Some(r) = rx.recv().await { yield r; } }).await.map_err(setup("streaming_pull"))?.into_inner();
+    tokio::time::sleep(Duration::from_millis(100)).await;
+    let mut all_ids = Vec::new();
+    for batch in 0..2u8 {
+        let ids = h.publish(t, (0..3u8).map(|i| (vec![batch, i], HashMap::new())).collect()).await.map_err(setup("publish"))?;
+        if ids.len() != 3 { return Err(f("C08", format!("Publish returned {} ids for 3 messages", ids.len()))); }
+        all_ids.extend(ids);
+    }
+    let mut got: Vec<(String, Vec<u8>)> = Vec::new();
+    while got.len() < 6 {
+        match tokio::time::timeout(Duration::from_secs(10), inbound.message()).await {
+            Ok(Ok(Some(r))) => for m in r.received_messages { let pm = m.message.unwrap_or_default(); got.push((pm.message_id, pm.data)); },
+            Ok(Ok(None)) | Ok(Err(_)) => return Err(f("C01", format!("an open StreamingPull ended after {} of 6 published messages", got.len()))),
+            Err(_) => return Err(f("C01+C06", format!("an open StreamingPull received {} of 6 published messages within 10 s", got.len()))),
+        }
+    }
+    let got_ids: Vec<String> = got.iter().map(|g| g.0.clone()).collect();
+    if got_ids != all_ids { return Err(f("C08", format!("first deliveries on the stream carry the ids {:?}, Publish returned {:?} (in this order)", got_ids, all_ids))); }
+    for (k, g) in got.iter().enumerate() { if g.1 != vec![(k / 3) as u8, (k % 3) as u8] { return Err(f("C09+C08", format!("delivery {} carries data {:?}", k, g.1))); } }
+    // everything is leased to the stream: a unary Pull gets nothing (C03); the second subscription has its own copies (C01/C02)
+    let dup = h.pull(s, 10, true).await.map_err(setup("pull"))?;
+    if !dup.is_empty() { return Err(f("C03", format!("{} messages leased to an open StreamingPull were also handed to a unary Pull", dup.len()))); }
+    let other = h.pull(s2, 10, true).await.map_err(setup("pull"))?;
+    if other.len() != 6 { return Err(f("C01", format!("the second subscription of the topic received {} of 6 messages", other.len()))); }
+    // delete the first subscription: it leaves the topic's list, the other stays (C11)
+    h.subscriber.delete_subscription(DeleteSubscriptionRequest { subscription: s.into() }).await.map_err(|e| f("C11+C10", format!("DeleteSubscription failed: {:?}", e.code())))?;
+    let l = h.publisher.list_topic_subscriptions(ListTopicSubscriptionsRequest { topic: t.into(), page_size: 10, page_token: String::new() }).await.map_err(|e| f("C11", format!("ListTopicSubscriptions: {:?}", e.code())))?.into_inner();
+    if l.subscriptions != vec![s2.to_string()] { return Err(f("C11", format!("after DeleteSubscription the topic lists {:?}, expected [{:?}]", l.subscriptions, s2))); }
+    let l = h.subscriber.list_subscriptions(ListSubscriptionsRequest { project: "projects/p".into(), page_size: 1000, page_token: String::new() }).await.map_err(|e| f("C13", format!("ListSubscriptions: {:?}", e.code())))?.into_inner();
+    if l.subscriptions.iter().any(|x| x.name == s) { return Err(f("C11+C10", "a deleted subscription is still listed in its project".into())); }
+    // publishing afterwards reaches only the remaining subscription
+    h.publish(t, vec![(vec![9], HashMap::new())]).await.map_err(setup("publish"))?;
+    h.ack(s2, other.iter().map(|m| m.ack_id.clone()).collect()).await.map_err(setup("ack"))?;
+    let more = h.pull(s2, 10, true).await.map_err(setup("pull"))?;
+    if more.len() != 1 { return Err(f("C01+C02", format!("after acknowledging 6 and publishing 1, the remaining subscription delivers {} messages", more.len()))); }
+    Ok(())
+}
+
 /// C15 (streaming limit) and C17 (inconsistent control messages) on an open StreamingPull
 async fn s_stream_limits(h: &mut Host) -> Result<(), Fail> {
     let (t, s) = ("projects/p/topics/sl", "projects/p/subscriptions/sl");
@@ -537,6 +591,7 @@ pub fn run_all() -> i32 {
         ("two_waiters", |h| Box::pin(s_two_waiters(h))),
         ("push_content", |h| Box::pin(s_push_content(h))),
         ("long_walk", |h| Box::pin(s_long_walk(h))),
+        ("cross_consumers", |h| Box::pin(s_cross_consumers(h))),
     ];
     let n = scenarios.len();
     // every scenario runs; each failing one prints its own WITNESS line (the driver picks the one for the property at hand)
